@@ -121,7 +121,7 @@ def run(ctx):
                         ctx.count("splices")
     ctx.exhaustive = True
     rng = ctx.rng
-    for _ in range(ctx.share(4000 if quick else 200000)):
+    for _ in range(ctx.share(4000 if quick else 800000)):
         spec = obs.rand_spec(rng, 6, 4, "abcdef一\n", palette=obs.PALETTE)
         L = sum(len(t) for t, _ in spec)
         new = rng.choice(NEWS) if rng.random() < .5 else obs.rand_spec(rng, 3, 3, "XYZ", palette=obs.PALETTE)
